@@ -328,7 +328,12 @@ def register(E):
     @R(r'as Iterator>::zip::<')
     def _(e, c, a): return It('zip', a=as_iter(e, a[0]), b=as_iter(e, a[1]))
     @R(r'as Iterator>::next$')
-    def _(e, c, a): return it_next(e, deref(a[0]))
+    def _(e, c, a):
+        x = deref(a[0])
+        if isinstance(x, Agg) and x.ty and x.ty not in ('arr', 'tup'):
+            f = e._find_impl('next', 'Iterator', x.ty, 1)          # crate type that is its own iterator (reached through an opaque `impl IntoIterator`)
+            if f is not None: return e.call_mir(f, [a[0] if isinstance(a[0], Ref) else Ref([x], 0)])
+        return it_next(e, x)
     @R(r'as Itertools>::collect_vec$|as Iterator>::collect::<')
     def _(e, c, a):
         items = drain(e, as_iter(e, a[0]))
